@@ -34,6 +34,7 @@ void * cstl_vector_at(struct cstl_vector * const v, const size_t i)
 static void cstl_vector_set_capacity(
     struct cstl_vector * const v, const size_t sz)
 {
+    const size_t n = sz + 1;
     void * e;
 
     /*
@@ -45,11 +46,20 @@ static void cstl_vector_set_capacity(
     assert(sz >= v->count);
 
     /*
+     * a capacity whose storage size cannot be represented
+     * as a size_t can't be allocated; treat it the same as
+     * a failure to allocate the memory
+     */
+    if (n == 0 || (v->elem.size != 0 && n > SIZE_MAX / v->elem.size)) {
+        return;
+    }
+
+    /*
      * the vector always (quietly) stores space for one extra
      * element at the end to use as scratch space for exchanging
      * elements during sort and reverse operations
      */
-    e = realloc(v->elem.base, (sz + 1) * v->elem.size);
+    e = realloc(v->elem.base, n * v->elem.size);
     if (e != NULL) {
         v->elem.base = e;
         v->cap = sz;
